@@ -514,12 +514,17 @@ func dischargeAll(obs []*Obligation, tier string, timeoutS, workers int) {
 }
 
 // smokeCheck: hyps must not be contradictory: (assert hyps) with goal false must not be unsat within 1s.
-func smokeCheck(name string, hyps []*Term) (vacuous bool) {
+// smokeStatus runs the satisfiability probe of a hypothesis set with the given timeout.
+func smokeStatus(name string, hyps []*Term, timeoutS int) string {
 	txt := smtFile(hyps, tFalse, "", false, "")
 	f := filepath.Join(smtDir, obFileName(name)+".smoke.smt2")
 	_ = os.WriteFile(f, []byte(txt), 0o644)
-	st, _, _ := runSolver(context.Background(), solvers[0], f, 1)
-	return st == "unsat"
+	st, _, _ := runSolver(context.Background(), solvers[0], f, timeoutS)
+	return st
+}
+
+func smokeCheck(name string, hyps []*Term) (vacuous bool) {
+	return smokeStatus(name, hyps, 1) == "unsat"
 }
 
 // runSmokes returns the names of vacuity probes that failed.
@@ -535,7 +540,14 @@ func runSmokes(sms []*smoke, workers int) []string {
 			defer wg.Done()
 			for sm := range ch {
 				if smokeCheck(sm.name, sm.after) {
-					if sm.before == nil || !smokeCheck(sm.name+".before", sm.before) {
+					// The hypotheses are refutable after the step. That only means something if they were not
+					// refutable before it; the "before" probe gets a generous budget, and a probe that merely ran out
+					// of time (busy machine) proves nothing either way and raises no alarm.
+					before := "sat"
+					if sm.before != nil {
+						before = smokeStatus(sm.name+".before", sm.before, 20)
+					}
+					if before != "unsat" && before != "timeout" && before != "error" {
 						mu.Lock()
 						out = append(out, sm.name)
 						mu.Unlock()
